@@ -424,6 +424,16 @@ class SpecEnv:
                 cs.append(smt.forall([x], z3.Implies(x != o, z3.Select(self.cur.get(n), x) == z3.Select(base.get(n), x)),
                                     patterns=[z3.Select(self.cur.get(n), x)]))
             return z3.And(*cs)
+        if f in ("only_fresh", "only_fresh_pre"):
+            # only_fresh('f1', 'f2'): fields f1, f2 changed at most at objects that were not allocated at entry (since loop entry)
+            cs = []
+            x = z3.Const(fresh_name("x!of"), V)
+            base = self.old if f == "only_fresh" else self.pre
+            for fn_ in a:
+                n = self._str(fn_)
+                cs.append(smt.forall([x], z3.Implies(self.old.sel("$alloc", x), z3.Select(self.cur.get(n), x) == z3.Select(base.get(n), x)),
+                                    patterns=[z3.Select(self.cur.get(n), x)]))
+            return z3.And(*cs)
         if f == "opt":
             return self.eng.option(self._str(a[0]))
         if f == "int":
